@@ -22,6 +22,7 @@ class _Index(object):
     _kind = None
     _dtype = None
     _name = None
+    _format = None
 
     def __init__(self, anyarray):
         name = self._name
@@ -85,8 +86,9 @@ class _Index(object):
     def _view(self, own=True):
         base, offset, length = self._raw()
         itemsize = numpy.dtype(self._dtype).itemsize
+        # py::format_descriptor<T>::format(): "b" "B" "i" "I" "q" (8-byte integers are exported as long long)
         return _mem.view(self if own else None, base + offset * itemsize if base else 0, (length,), (itemsize,),
-                         self._dtype)
+                         _mem.dtype_from_format(self._format))
 
     def __buffer__(self, flags):
         return memoryview(self._view(False))
@@ -154,16 +156,16 @@ class _Index(object):
         return jax.dlpack.from_dlpack(self._view())
 
 
-def _make(name, kind, dtype):
-    return type(name, (_Index,), {"__slots__": (), "_kind": kind, "_dtype": dtype, "_name": name,
+def _make(name, kind, dtype, fmt):
+    return type(name, (_Index,), {"__slots__": (), "_kind": kind, "_dtype": dtype, "_name": name, "_format": fmt,
                                   "__module__": "awkward._ext"})
 
 
-Index8 = _make("Index8", 0, numpy.int8)
-IndexU8 = _make("IndexU8", 1, numpy.uint8)
-Index32 = _make("Index32", 2, numpy.int32)
-IndexU32 = _make("IndexU32", 3, numpy.uint32)
-Index64 = _make("Index64", 4, numpy.int64)
+Index8 = _make("Index8", 0, numpy.int8, "b")
+IndexU8 = _make("IndexU8", 1, numpy.uint8, "B")
+Index32 = _make("Index32", 2, numpy.int32, "i")
+IndexU32 = _make("IndexU32", 3, numpy.uint32, "I")
+Index64 = _make("Index64", 4, numpy.int64, "q")
 
 BY_KIND = {0: Index8, 1: IndexU8, 2: Index32, 3: IndexU32, 4: Index64}
 
